@@ -14,6 +14,12 @@
    start"                                                         composed with C18's generated option strings)
   "and 1 when it refuses its arguments"                          refused_exit1, option_refusal_exit1 (composed with C18's
                                                                  `effective`: every refusal of the option stage is 1),
+                                                                 every_refusal_exits_1 / every_info_exits_0 (EVERY statement of
+                                                                 main.c / opt.c / module loading / dsh()'s prologue that ends
+                                                                 the process before a target is contacted: Dsh/ExitRefuse.lean),
+                                                                 tied to the source by the generated call-site probe:
+                                                                 exit_sites_all_mapped, battery_agrees, every_refusal_probed,
+                                                                 refusal_all_complete;
                                                                  abort_exit1 / sigint_abort_nonzero (^C, composed with C20)
   "with -S the exit status is the largest return code of any     S_is_max (repaired D8; S_is_max_unchanged_false,
    remote command, raised to 254 if any host could not be        S_is_max_partial), aggregate_perm, mainExit_perm,
@@ -25,7 +31,14 @@
    success"
   "with -k any failure makes the exit status non-zero"           k_any_failure_nonzero, k_out_of_band_failure (the -k test
                                                                  reads the status AFTER the teardown merge),
-                                                                 out_of_band_rc_before_teardown
+                                                                 out_of_band_rc_before_teardown;
+                                                                 -k AS A TRANSITION SYSTEM (Dsh/ExitKill.lean: the poll-loop
+                                                                 iterations, `_die_if_signalled`, the teardown test, `_fwd_signal`):
+                                                                 kill_any_failure_every_schedule, kill_failing_host_completes,
+                                                                 kill_exit_every_schedule (= mainExit, every schedule),
+                                                                 kill_exec_every_schedule, kill_inband_every_schedule
+                                                                 (noEarlyDeath_inband), kill_siblings, kill_returned_all_done,
+                                                                 kill_witnesses, kill_early_death_witness
   quantifier "in any completion order"                           one_status_per_target, exit_any_schedule (composed with
                                                                  the fan-out LTS of C03: every schedule of every fanout)
   mechanism "marker appended to command"                         marker_requested, sent_command_keeps_command
@@ -40,10 +53,19 @@
   NOT PROVED / NOT MODELLED:
     * `pipecmd_wait` / `waitpid` (that exec_destroy blocks until the child is gone and returns its real status): real
       children in the harness (`xd`, late-exit children) and the real binary, no theorem.
-    * the -k fail-fast is modelled by its effect on the exit status (`kFails` on the per-target data AFTER the teardown
-      merge: k_out_of_band_failure), not as a transition of the fan-out LTS (which sibling is killed when): the real
-      dsh() (scripted transport) and the real binary run out-of-band failure x -k x position in every quick run.
-    * `_die_if_signalled` (a marker code > 128 in mid-stream under -k): time dependent; generator keeps clear of it.
+    * -k: the transition system of Dsh/ExitKill.lean is the fanout-UNCONSTRAINED one (any target may be started at any
+      time); the executions of the real dispatcher are a subset, so the every-schedule theorems cover them, but "at most
+      fanout siblings are in flight when the run is ended" is C04's statement, not repeated here.  Two threads calling
+      exit() at the same instant (two failures noticed at once) are one `exited` state of the model: the first wins.
+      `pthread_create` failing (dsh(): errx, with -k after `_fwd_signal`) needs fault injection: not modelled, not driven.
+    * outside the domain (two marker lines for one target) the exit status of a -k run depends on how the output is cut
+      into poll-loop iterations: kill_early_death_witness; the generator keeps to one marker line per target.
+    * the refusal paths inside mod.c / wcoll.c / rcmd.c (module directory checks, the target file reader, the transport
+      registry) are driven on the real binary (vlib/exitrefuse.py), their call sites are not enumerated by the probe
+      (harness/consts/exitsites.c covers opt.c and main.c); sites only a failing system call reaches (getcwd, getpwuid,
+      fork, malloc) are listed by the probe (XS_SYSFAIL), not exercised.  `stdin_unavailable` is never set in this tree,
+      so the `_usage` call of opt_verify ("no command and stdin taken by -w -") is dead code: `pdsh -w -` without a
+      command enters the prompt loop at end of file (battery entry stdin-taken-no-command).
     * the Linux wait-status encoding, glibc atoi / strstr: modelled (Exit.lean, Base/CInt.lean), not verified.
     * pdcp / rpdcp: the exit status of a copy run is 0 whatever was copied (pcp_exit0); whether files arrived is C11.
 -/
@@ -754,6 +776,78 @@ theorem kill_exec_every_schedule (fx : Fixes) (hd7 : fx.d7 = true) (hd8 : fx.d8 
   have := kill_exit_every_schedule fx ⟨S, k⟩ _ evs hx hne
   rw [this, List.map_map]
   exact exec_exit_admissible fx hd7 hd8 S k outs hok
+
+/-- in-band data of the property's domain: after every prefix of the lines `th->rc` is 0 or already the marker's code -/
+theorem rcAfter_prefix_inband (fx : Fixes) (hd9 : fx.d9 = true) (hl : fx.late = true) (out late : List Str) (pre : Str)
+    (c : Nat) (hc : c < CInt.I31) (hout : ∀ l ∈ out, 'X' ∉ l) (hlate : ∀ l ∈ late, 'X' ∉ l)
+    (hpre : 'X' ∉ pre) (hnul : NUL ∉ pre) (m : Nat) :
+    rcAfter fx 0 (out ++ [markerLine pre c] ++ late) 0 m = 0 ∨
+    rcAfter fx 0 (out ++ [markerLine pre c] ++ late) 0 m = c := by
+  unfold rcAfter
+  simp only [List.drop_zero]
+  by_cases hm : m ≤ out.length
+  · left
+    rw [List.append_assoc, List.take_append_of_le_length hm]
+    exact foldl_lineStep_noX fx hl 0 _ (fun l h => hout l (List.mem_of_mem_take h))
+  · right
+    rw [List.take_append, List.take_of_length_le (by simp; omega)]
+    exact hostRc_inband fx hd9 hl out _ pre c hc hout (fun l h => hlate l (List.mem_of_mem_take h)) hpre hnul
+
+/-- IN-BAND TARGETS OF THE PROPERTY'S DOMAIN NEVER DIE EARLY WITHOUT FAILING (repaired D9 + late line): the hypothesis
+    of `kill_exit_every_schedule` holds for every vector of outcomes with in-band data -/
+theorem noEarlyDeath_inband (fx : Fixes) (hd9 : fx.d9 = true) (hl : fx.late = true)
+    (run : List (Outcome × InbandData)) (hok : ∀ ox ∈ run, okOutcome ox.1 ∧ ox.2.ok) :
+    NoEarlyDeath fx (run.map fun ox => some (inbandScript ox.2.out.flatten ox.2.pre ox.2.late.flatten ox.1)) := by
+  intro sc hm m hle hrc
+  simp only [List.mem_map, Option.some.injEq] at hm
+  obtain ⟨⟨o, x⟩, hmem, rfl⟩ := hm
+  obtain ⟨hoo, hx⟩ := hok _ hmem
+  have hF := inband_host_faithful fx hd9 hl o hoo x hx
+  cases o with
+  | connectFailed => simp [kFails, hF.1]
+  | timedOut => simp [kFails, hF.1]
+  | killed s =>
+    have := hF.2.1
+    simp only [kFails, Bool.or_eq_true, decide_eq_true_eq]
+    right; omega
+  | exited c =>
+    cases c with
+    | succ c =>
+      have : hostOf fx (inbandScript x.out.flatten x.pre x.late.flatten (.exited (c + 1))) = ⟨.done, ((c + 1 : Nat) : Int)⟩ := hF
+      rw [this]
+      simp only [kFails, Bool.or_eq_true, decide_eq_true_eq]
+      right; omega
+    | zero =>
+      exfalso
+      obtain ⟨ho, hla, hpx, hpn, hpl⟩ := hx
+      have lines : linesOf (inbandScript x.out.flatten x.pre x.late.flatten (.exited 0)) =
+          x.out ++ [markerLine x.pre 0] ++ x.late := by
+        have := splitLines_flatten (x.out ++ [markerLine x.pre 0] ++ x.late) [] (by
+          intro l hl'
+          simp only [List.mem_append, List.mem_singleton] at hl'
+          rcases hl' with (h1 | h1) | h1
+          · exact (ho l h1).1
+          · subst h1; exact markerLine_isLine _ _ hpl
+          · exact (hla l h1).1) (by simp)
+        simpa [linesOf, inbandScript] using this
+      rw [lines] at hrc
+      rcases rcAfter_prefix_inband fx hd9 hl x.out x.late x.pre 0 (by unfold CInt.I31; omega)
+        (fun l h => (ho l h).2) (fun l h => (hla l h).2) hpx hpn m with h0 | h0 <;> rw [h0] at hrc <;> omega
+
+/-- IN-BAND CHANNEL, EVERY SCHEDULE (repaired D8 + D9 + late line): for every vector of outcomes with in-band data of
+    the property's domain, every flag combination and EVERY schedule that ends the process — however the output of
+    every target is cut into poll-loop iterations, whichever worker's -k test fires first — the exit status is one the
+    specification admits -/
+theorem kill_inband_every_schedule (fx : Fixes) (hd8 : fx.d8 = true) (hd9 : fx.d9 = true) (hl : fx.late = true)
+    (S k : Bool) (run : List (Outcome × InbandData)) (hok : ∀ ox ∈ run, okOutcome ox.1 ∧ ox.2.ok) (evs : List Ev)
+    {c : Nat} {how : How} {ps : List Phase} {sg : List Nat}
+    (hx : exec fx ⟨S, k⟩ (run.map fun ox => some (inbandScript ox.2.out.flatten ox.2.pre ox.2.late.flatten ox.1))
+      (init (run.map fun ox => some (inbandScript ox.2.out.flatten ox.2.pre ox.2.late.flatten ox.1))) evs =
+      some (.exited c how ps sg)) :
+    ExitSpec.admissible S k false (run.map (·.1)) c = true := by
+  have := kill_exit_every_schedule fx ⟨S, k⟩ _ evs hx (noEarlyDeath_inband fx hd9 hl run hok)
+  rw [this, List.map_map]
+  exact inband_exit_admissible fx hd8 hd9 hl S k run hok
 
 /-- WHAT HAS BECOME OF THE SIBLINGS when a -k test ends the process (every reachable such state):
     (1) every target is in exactly one phase (the record has one entry per target);
